@@ -1,4 +1,5 @@
 import NA.Proofs.C04Idem2
+import NA.Model.NsxSvc
 /-!
 # C04 — NSX approve converges to the Netspoc-equivalent gateway policies
 (and the NSX theorems of C07 / C08 / C10, names prefixed `nsx_`)
@@ -336,7 +337,31 @@ example : (run exStore (plan prefixDiff (load exStore) exTarget).calls).map
     (fun S1 => ((plan prefixDiff (load S1) exTarget).abort, (plan prefixDiff (load S1) exTarget).calls)) =
     some (none, []) := by decide
 
-def obligations : List Lean.Name := [``nsx_converges, ``nsx_calls_executable, ``nsx_no_leftover_service,
+/-! ### services are compared by definition
+
+`addNewServices` compares marshalled service entries byte by byte and sends the marshalled target.  The
+marshalling (`SvcEntry.marshal`, model of `nsxServiceEntry.MarshalJSON`; its byte form `render` is compared
+with the bodies the real code sends on every run) loses nothing on entries built from the fields of their
+resource type, so the opaque `Service.defn` of the planner model stands for the definition itself. -/
+
+theorem nsx_service_marshal_injective (l1 l2 : List SvcEntry) (h1 : ∀ e ∈ l1, e.WF) (h2 : ∀ e ∈ l2, e.WF)
+    (h : marshalAll l1 = marshalAll l2) : l1 = l2 := marshalAll_injective l1 l2 h1 h2 h
+
+-- non-vacuity: the hypotheses hold for entries of all three kinds, and near misses marshal differently
+example : marshalAll [{ id := "id", kind := .icmp, icmpProto := "ICMPv4", icmpCode := some 3 }]
+    ≠ marshalAll [{ id := "id", kind := .icmp, icmpProto := "ICMPv4" }] := by decide
+example : marshalAll [{ id := "id", kind := .l4, l4Proto := "TCP", dst := some ["80"] }]
+    ≠ marshalAll [{ id := "id", kind := .l4, l4Proto := "TCP", dst := some ["80"], src := some [] }] := by decide
+example : (∀ e ∈ [({ id := "a", kind := .l4, l4Proto := "TCP", dst := some ["80"] } : SvcEntry),
+    { id := "b", kind := .ipproto, protoNum := 47 }, { id := "c", kind := .icmp, icmpProto := "ICMPv6", icmpType := some 128 }], e.WF) := by decide
+
+/-- A marshalling that writes `icmp_code` only together with `icmp_type` identifies two different services. -/
+theorem nsx_service_marshal_variant_counterexample :
+    ∃ e1 e2 : SvcEntry, e1.WF ∧ e2.WF ∧ e1 ≠ e2 ∧ marshalCodeInsideType e1 = marshalCodeInsideType e2 :=
+  marshalCodeInsideType_not_injective
+
+def obligations : List Lean.Name := [``nsx_service_marshal_injective, ``nsx_service_marshal_variant_counterexample,
+  ``marshal_injective,``nsx_converges, ``nsx_calls_executable, ``nsx_no_leftover_service,
   ``nsx_no_leftover_unused_group, ``nsx_group_equalize_converges, ``nsx_rules_converge,
   ``nsx_create_policy_converges, ``nsx_ids_unique, ``nsx_ids_unique_counterexample,
   ``addrDiff_perm, ``stepItems_spec, ``walk_of_valid, ``adaptGroup_spec, ``equalize_spec,
